@@ -680,6 +680,8 @@ SPEC = MachineSpec(init=init_strategy, start=start, ops=OPS, invariant=invariant
 
 SUBCHECKS = [
     SubCheck("record_history", machine=SPEC, examples=(50, 800), shards=(8, 16), soft_budget=(80.0, 900.0),
+             fuzz={"instrument": ["quimb.tensor.tn1d.core:MatrixProductState", "quimb.tensor.tn1d.core:TensorNetwork1DFlat",
+                                  "quimb.tensor.tn1d.core:TensorNetwork1D"], "shards": 6, "runs": 20000, "max_seconds": 600},
              rule="rule-based machine threading one info record; invariant: record sound + flagged isometries; every step compared "
                   "with the dense state; nt: record consumed after >=2 record-changing steps"),
 ]
